@@ -226,7 +226,7 @@ CATALAN = {1: 1, 2: 2, 3: 5, 4: 14, 5: 42, 6: 132, 7: 429, 8: 1430}
 def sched_items(ctx):
     """Scheduler explorer cases (harness/cmd_sched.c): the library's own ParallelInit / pxgstrf_scheduler /
     pxgstrf_mark_busy_descends executed under every interleaving of simulated workers, for every postordered forest
-    with n columns (Catalan(n) of them) x panel sizes {1,4,6} x relax {1,2,3} x 2..3 workers."""
+    with n columns (Catalan(n) of them) x panel sizes {1,2,3} x relax {1,2,3} x 2..3 workers."""
     items = []
     def add(n, first, count, **kw):
         c = {'cmd': 'sched', 'n': n, 'first': first, 'count': count}; c.update(kw)
@@ -248,7 +248,7 @@ def sched_items(ctx):
 MODEL_COUNTERS = ('model_forests', 'model_configs', 'model_states', 'model_transitions', 'model_takes', 'model_pipe_takes', 'model_truncated_configs')
 RULE_SCHED = ('; scheduler explorer: every interleaving of worker actions (scheduler call, wait point passed, column released joining or starting a '
               'supernode, panel finished, exit) on the library\'s own scheduler code and data, states memoised by a 64-bit hash, for all postordered forests '
-              'with n<=5 columns (quick) / n<=7 and a sample of n=8 (thorough) x w in {1,4,6} x relax in {1,2,3} x 2..3 workers')
+              'with n<=5 columns (quick) / n<=7 and a sample of n=8 (thorough) x w in {1,2,3} x relax in {1,2,3} x 2..3 workers')
 RULE_FACTOR = ('cases are drawn from seeded generators (family, n, density/shape, values, scaling, ordering, nprocs, w/relax/maxsuper/'
                'rowblk/colblk, perturbation mode+seed); distinct = sha1 of all case parameters; non-trivial = n>=4, >=2 supernodes and, '
                'when nprocs>=2, panels were factored by at least two different threads according to the event log')
@@ -1004,7 +1004,7 @@ def gen_c14(ctx):
 
 import re as _re
 re_abort = _re.compile(r'(SUPERLU_MALLOC|[Mm]alloc|alloc).* at line \d+ in file ')
-OOM_MARKS = ('SUPERLU_MALLOC fail', 'Malloc fails', 'malloc fails', 'Memory allocation failed', 'Not enough memory', 'Not enough core', 'fails for', 'Can\'t expand')
+OOM_MARKS = ('queue_init fails', 'SUPERLU_MALLOC fail', 'Malloc fails', 'malloc fails', 'Memory allocation failed', 'Not enough memory', 'Not enough core', 'fails for', 'Can\'t expand')
 
 def judge_c14(ctx, r, out):
     m = r['meta']; c = r['case']; res = r.get('result')
